@@ -5,6 +5,7 @@ import (
 	"errors"
 	"fmt"
 	"go/format"
+	"html"
 	"io"
 	"strings"
 	"unicode"
@@ -805,7 +806,41 @@ func (ca ConstantAttribute) String() string {
 	if ca.SingleQuote {
 		quote = `'`
 	}
-	return ca.Name + `=` + quote + ca.Value + quote
+	return ca.Name + `=` + quote + escapeConstantAttributeValue(ca.Value, quote[0]) + quote
+}
+
+// escapeConstantAttributeValue reverses the html.UnescapeString done by the parser, so that
+// the written attribute parses back to the same value: the quote in use and every & that
+// would start a character reference are written as character references.
+func escapeConstantAttributeValue(v string, quote byte) string {
+	if !strings.ContainsAny(v, "&\"'") {
+		return v
+	}
+	var sb strings.Builder
+	for i := 0; i < len(v); i++ {
+		switch c := v[i]; {
+		case c == quote && c == '"':
+			sb.WriteString("&#34;")
+		case c == quote:
+			sb.WriteString("&#39;")
+		case c == '&' && startsCharacterReference(v[i:]):
+			sb.WriteString("&amp;")
+		default:
+			sb.WriteByte(c)
+		}
+	}
+	return sb.String()
+}
+
+func startsCharacterReference(s string) bool {
+	end := 1
+	for end < len(s) && (s[end] == '#' || '0' <= s[end] && s[end] <= '9' || 'a' <= s[end] && s[end] <= 'z' || 'A' <= s[end] && s[end] <= 'Z') {
+		end++
+	}
+	if end < len(s) && s[end] == ';' {
+		end++
+	}
+	return html.UnescapeString(s[:end]) != s[:end]
 }
 
 func (ca ConstantAttribute) Write(w io.Writer, indent int) error {
